@@ -216,7 +216,8 @@ class C05:
                 if pp.pop("band_sets", None):
                     pp["bad"] = None  # whole-configuration checks read both images from files with identical bands
                 ops.append({"op": "full", "pipeline": pp, "input": self.gen_input_op(rnd, w, p_bad=0.15)})
-        return {"harness": "check-history", "world": w, "ops": ops}
+        # in some histories the pipeline-level checks share ONE machine object (until a check is rejected)
+        return {"harness": "check-history", "world": w, "ops": ops, "shared_machine": rnd.random() < 0.35}
 
     def gen_pipeline_op(self, rnd, w, p_bad=0.35):
         kinds = programs.gen_legal_kinds(rnd, max_cv=2, max_dm=3, allow=[k for k in programs.KINDS if k not in
@@ -326,7 +327,12 @@ class C05:
         if op["op"] == "pipeline":
             user = {"pipeline": {n: copy.deepcopy(cfg) for n, k, m, cfg in op["steps"]}}
             before = copy.deepcopy(user)
-            m, _ = runner.new_machine(instrumented=False)
+            if env.get("shared") is not None and env["shared"].get("machine") is not None:
+                m = env["shared"]["machine"]
+            else:
+                m, _ = runner.new_machine(instrumented=False)
+                if env.get("shared") is not None:
+                    env["shared"]["machine"] = m
             metas = {"left": env["meta_left"], "right": env["meta_right"]}
             for side_, names_ in (op.get("band_sets") or {}).items():
                 metas[side_] = metas[side_].assign_coords(band_im=list(names_))
@@ -339,6 +345,11 @@ class C05:
                 problems.append(("user_dict_mutated", ""))
             exp = "reject" if op["bad"] else "accept"
             res = None
+            if env.get("shared") is not None:
+                if verdict == "accept":
+                    env["shared"]["returned"].append((out, render(out)))
+                else:
+                    env["shared"]["machine"] = None  # a rejected check leaves the machine in an undefined state
             if verdict == "accept":
                 res = render(out)
                 if list(out["pipeline"]) != [s[0] for s in op["steps"]]:
@@ -447,8 +458,16 @@ class C05:
                    "input": files.write_world(w, tmp)}
             viol, cov, shapes = [], {}, []
             solos = [self.solo(op, env) for op in sc["ops"]]
+            if sc.get("shared_machine"):
+                env["shared"] = {"machine": None, "returned": []}
             for i, op in enumerate(sc["ops"]):
                 res = self.exec_op(op, env)
+                for obj, rendered in (env.get("shared") or {}).get("returned", []):
+                    if render(obj) != rendered:
+                        viol.append({"class": "C05.returned_configuration_changed_later",
+                                     "sig": {"op": op["op"]}, "index": i})
+                        env["shared"]["returned"] = []
+                        break
                 cov["ops"] = cov.get("ops", 0) + 1
                 cov["op_" + op["op"]] = cov.get("op_" + op["op"], 0) + 1
                 cov[res["verdict"]] = cov.get(res["verdict"], 0) + 1
@@ -484,6 +503,7 @@ class C05:
                                                        for a, b in zip(mc, mc[1:]))),
                     "input_forms_alternated": int(sum(1 for o in sc["ops"] if o["op"] in ("input", "full")) >= 2),
                     "history_len_ge_8": int(len(sc["ops"]) >= 8),
+                    "pipeline_checks_share_one_machine": int(bool(sc.get("shared_machine"))),
                     "rejected_op_then_more_ops": int(any(o.get("bad") for o in sc["ops"][:-1])),
                 },
             }
